@@ -364,6 +364,11 @@ def oracle(rng, thorough, deep=False, hints=None):
     for i, (T, via) in enumerate([(1, "model"), (2, "loader"), (1, "align_stack"), (3, "model"), (2, "group_list")][: 5 if (thorough or deep) else 3]):
         cases.append(dict(T=T, K=1, j=int(rng.integers(0, T)), k=0, n=int(rng.choice([10, 11])), shift=[int(x) for x in rng.integers(-1, 2, size=3)],
                           model="ZNCC", via=via, mask=None, single_rot=[["z", 90], ["y", 90], ["x", -90]][i % 3]))
+    # displacements with components exactly at the end of the search range (max_shifts = 2 px), several candidates
+    for i, (T, K, via) in enumerate([(2, 3, "model"), (3, 4, "loader"), (1, 3, "align_stack"), (2, 1, "model"), (3, 3, "group_list")][: 5 if (thorough or deep) else 3]):
+        sh = [[2, -1, 0], [0, 2, -2], [-2, 2, 1], [2, 2, 2], [-2, 0, 2]][i]
+        cases.append(dict(T=T, K=K, j=int(rng.integers(0, T)), k=int(rng.integers(0, K)), n=int(rng.choice([12, 13])), shift=sh,
+                          model="ZNCC", via=via, mask=None))
     # (max, step) range forms, also with max not a multiple of step and with one or two axes switched off
     rsets = [[(20, 15), (0, 0), (0, 0)], [(0, 0), (25, 10), (0, 0)], [(10, 5), (4, 2), (8, 4)], [(0, 0), (0, 0), (35, 20)],
              [(15, 15), (20, 15), (0, 0)], [(30, 12.5), (0, 0), (7.5, 7.5)]]
